@@ -121,6 +121,82 @@ fn book_gen(m: &HashMap<String, String>) {
     let _ = std::fs::remove_dir_all(&scratch);
 }
 
+
+/// book-enum --depth D [--tick T] [--ties 0|1] [--toggle 0|1] [--shard i/n]
+/// Bounded-exhaustive histories: EVERY operation sequence of length D over a small alphabet
+/// (limit orders at two prices x two volumes on both sides, market orders of two sizes, cancel and
+/// the full modify grid on every order created so far, optionally the trading switch), each
+/// followed by drain probes. With `--ties 1` the clock is never advanced.
+fn book_enum(m: &HashMap<String, String>) {
+    use bourse_verif_harness::bookdrive::run_fixed;
+    let depth: usize = m.get("depth").and_then(|s| s.parse().ok()).unwrap_or(3);
+    let tick: u32 = m.get("tick").and_then(|s| s.parse().ok()).unwrap_or(2);
+    let ties = m.get("ties").map(|s| s == "1").unwrap_or(false);
+    let toggle = m.get("toggle").map(|s| s == "1").unwrap_or(false);
+    // profile name shown in the history ids (the per-property projections key on it)
+    let pname: String = m.get("profile").cloned().unwrap_or_else(|| if toggle { "toggle".into() } else if ties { "ties".into() } else { "disciplined".into() });
+    let (shard, nshards) = m.get("shard").and_then(|s| { let mut it = s.split('/'); Some((it.next()?.parse::<usize>().ok()?, it.next()?.parse::<usize>().ok()?)) }).unwrap_or((0, 1));
+    let out = std::io::stdout();
+    let mut w = BufWriter::with_capacity(1 << 20, out.lock());
+    let scratch = scratch_dir();
+    let prices = [5 * tick, 6 * tick];
+    let alphabet = |n_orders: usize| -> Vec<Op> {
+        let mut v = Vec::new();
+        for &bid in &[true, false] {
+            for &p in &prices { for &vol in &[1u32, 2] { v.push(Op::Cap(bid, vol, 1, Some(p))); } }
+            for &vol in &[1u32, 3] { v.push(Op::Cap(bid, vol, 2, None)); }
+        }
+        for i in 0..n_orders {
+            v.push(Op::Cancel(i));
+            for p in [None, Some(prices[0]), Some(prices[1])] {
+                for vol in [None, Some(1u32), Some(3)] {
+                    if p.is_none() && vol.is_none() { continue; }
+                    v.push(Op::Modify(i, p, vol));
+                }
+            }
+        }
+        if toggle { v.push(Op::Trading(false)); v.push(Op::Trading(true)); }
+        v
+    };
+    // depth-first enumeration with an explicit stack of choice indices
+    let mut count: usize = 0;
+    let mut seq: Vec<Op> = Vec::new();
+    fn n_created(seq: &[Op]) -> usize { seq.iter().filter(|o| matches!(o, Op::Cap(..))).count() }
+    #[allow(clippy::too_many_arguments)]
+    fn rec<W: Write>(seq: &mut Vec<Op>, depth: usize, alphabet: &dyn Fn(usize) -> Vec<Op>, count: &mut usize, shard: usize, nshards: usize,
+                     ties: bool, tick: u32, pname: &str, scratch: &std::path::PathBuf, w: &mut W) {
+        if seq.len() == depth {
+            let k = *count;
+            *count += 1;
+            if k % nshards != shard { return; }
+            let mut ops: Vec<Op> = Vec::new();
+            let mut t: u64 = 10;
+            for o in seq.iter() {
+                if !ties { t += 1; ops.push(Op::Time(t)); }
+                ops.push(o.clone());
+            }
+            // drain probes
+            ops.push(Op::Trading(true));
+            t += 1; ops.push(Op::Time(t));
+            ops.push(Op::Cap(true, 50, 9, None));
+            t += 1; ops.push(Op::Time(t));
+            ops.push(Op::Cap(false, 50, 9, None));
+            let h = BookHeader { id: format!("{}-enum{}-{}", pname, depth, k), profile: pname.to_string(), t0: 10, tick, trading: true, levels: 3 };
+            run_fixed::<3, W>(&h, &ops, scratch.clone(), w);
+            return;
+        }
+        let n = n_created(seq);
+        for o in alphabet(n) {
+            seq.push(o);
+            rec(seq, depth, alphabet, count, shard, nshards, ties, tick, pname, scratch, w);
+            seq.pop();
+        }
+    }
+    rec(&mut seq, depth, &alphabet, &mut count, shard, nshards, ties, tick, &pname, &scratch, &mut w);
+    w.flush().unwrap();
+    let _ = std::fs::remove_dir_all(&scratch);
+}
+
 fn book_replay(path: &str) {
     let f = std::fs::File::open(path).expect("open replay file");
     let rd = std::io::BufReader::new(f);
@@ -571,6 +647,7 @@ fn real_main() {
     let m = args_map(&args[2..]);
     match args[1].as_str() {
         "book-gen" => book_gen(&m),
+        "book-enum" => book_enum(&m),
         "book-replay" => replay(&args[2]),
         "replay" => replay(&args[2]),
         "env-gen" => env_gen(&m),
